@@ -169,7 +169,8 @@ pub fn wire_model(r: &DuoRun, cfg: &OracleCfg, o: &mut Outcome) -> WireModel {
                     x.win[from] = Some(*n);
                 } else if x.est_sent.is_some() {
                     x.ack_sent[from] += *n as u64;
-                    if l.d[to].inflight_len() > 0 {
+                    // an Acknowledge leaving while a Push of the same flow travels towards its sender
+                    if x.push_sent[to] > x.push_consumed[from].len() as u64 {
                         m.ack_crossed_push += 1;
                     }
                     // I3: never more than received; I2: never ahead of what the application started consuming
@@ -339,6 +340,20 @@ pub fn judge(r: &DuoRun, cfg: &OracleCfg, o: &mut Outcome) -> (WireModel, EndInf
                     o.violate("C02:eof-equality", msg);
                 }
             }
+            // ---- a write may fail only for a reason: local shutdown, the peer let go of the stream, or the connection ended
+            for w in &wr.writes {
+                if let (Some(Err(_)), Some(ret)) = (&w.res, w.ret) {
+                    let justified = wr.shutdown_inv.is_some_and(|x| x < ret)
+                        || rd.dropped.is_some_and(|x| x < ret)
+                        || ei.first_fault_seq.is_some_and(|x| x < ret)
+                        || led.task_end.iter().flatten().any(|(q, _)| *q < ret)
+                        || led.mux_dropped.iter().flatten().any(|q| *q < ret);
+                    if !justified {
+                        o.violate("C06:spurious-write-failure", format!("stream {tag}: a write at side {ws} failed (seq {ret}) although the stream was not shut down locally, the peer still holds it and the connection is alive"));
+                        break;
+                    }
+                }
+            }
             // ---- writes that started after the local task consumed the peer's Reset must fail
             if cfg.accountant {
                 if let Some(&ix) = wm.by_tag.get(&tag) {
@@ -388,7 +403,7 @@ pub fn judge(r: &DuoRun, cfg: &OracleCfg, o: &mut Outcome) -> (WireModel, EndInf
                     let peer_aborted = rd.aborted && rd.dropped.is_some();
                     if peer_aborted {
                         o.violate("C06:peer-write-stuck", format!("stream {tag}: the peer aborted the stream (seq {:?}) but a write at endpoint {wep} is still pending at quiescence", rd.dropped));
-                    } else if reader_active && plan_reads_to_eof(plan, tag, rs) {
+                    } else if reader_active && rd.in_read.is_some() {
                         o.violate("C04:stall-write", format!("stream {tag}: a write of {} bytes at endpoint {wep} (started seq {}) is still pending at quiescence although the peer application keeps reading (windows: {} -> {}, thresholds {} / {})", w.n, w.inv, plan.eps[wep].rwnd, plan.eps[rep].rwnd, plan.eps[wep].threshold, plan.eps[rep].threshold));
                     }
                 }
@@ -454,9 +469,6 @@ pub fn judge(r: &DuoRun, cfg: &OracleCfg, o: &mut Outcome) -> (WireModel, EndInf
     (wm, ei)
 }
 
-fn plan_reads_to_eof(plan: &Plan, tag: usize, side: usize) -> bool {
-    plan.streams[tag].sides[side].r.iter().any(|op| matches!(op, ROp::ReadEof { .. } | ROp::FillEof { .. }))
-}
 
 // ------------------------------------------------------------------ datagrams (C11)
 
@@ -566,14 +578,12 @@ fn judge_datagrams(r: &DuoRun, led: &Ledger, ei: &EndInfo, o: &mut Outcome) {
     }
     // no datagram terminates the connection
     if !ei.any_fault {
-        for x in 0..2 {
-            if let Some((q, res)) = &led.task_end[x] {
-                if led.mux_dropped.iter().all(|d| d.is_none()) {
-                    let msg = format!("endpoint {x}'s connection task returned {res} (seq {q}) although nothing ended the connection");
-                    o.violate("C11:connection-terminated", msg.clone());
-                    o.violate("C10:connection-terminated", msg);
-                }
-            }
+        if led.task_end.iter().any(|t| t.is_some()) && led.mux_dropped.iter().all(|d| d.is_none()) {
+            let mut ends: Vec<(u64, usize, String)> = led.task_end.iter().enumerate().filter_map(|(x, t)| t.as_ref().map(|(q, r)| (*q, x, r.clone()))).collect();
+            ends.sort();
+            let msg = format!("nothing ended the connection, yet connection tasks returned: {}", ends.iter().map(|(q, x, r)| format!("endpoint {x} -> {r} (seq {q})")).collect::<Vec<_>>().join(", "));
+            o.violate("C11:connection-terminated", msg.clone());
+            o.violate("C10:connection-terminated", msg);
         }
     }
 }
@@ -657,9 +667,9 @@ pub fn judge_leaks(r: &DuoRun, wm: &WireModel, ei: &EndInfo, o: &mut Outcome) {
     let led = r.led.borrow();
     let l = r.link.lock().unwrap();
     let evs = &l.evs[r.probe_from.min(l.evs.len())..];
-    let probed: Vec<(usize, u32)> = evs.iter().filter(|e| e.injected && e.stage == Stage::Consumed).filter_map(|e| match &*e.w { Wire::Frame(RFrame::Ack { id, n: 0 }) => Some((1 - e.from, *id)), _ => None }).collect();
+    let probed: Vec<(usize, u32, u64)> = evs.iter().filter(|e| e.injected && e.stage == Stage::Consumed).filter_map(|e| match &*e.w { Wire::Frame(RFrame::Ack { id, n: 0 }) => Some((1 - e.from, *id, e.seq)), _ => None }).collect();
     let mut n_probed = 0;
-    for (at, id) in probed {
+    for (at, id, pseq) in probed {
         n_probed += 1;
         let answered = evs.iter().any(|e| e.stage == Stage::Sent && e.from == at && !e.injected && matches!(&*e.w, Wire::Frame(RFrame::Reset { id: i }) if *i == id));
         // excused: the application at `at` still holds a stream (or a pending request) with this id
@@ -669,10 +679,11 @@ pub fn judge_leaks(r: &DuoRun, wm: &WireModel, ei: &EndInfo, o: &mut Outcome) {
                 if t < led.streams.len() {
                     let side = if at == inst.requester { 0 } else { 1 };
                     let sl = &led.streams[t].sides[side];
-                    if sl.got_stream.is_some() && sl.dropped.is_none() {
+                    // judged at the instant of the probe
+                    if sl.got_stream.is_some() && sl.dropped.is_none_or(|d| d > pseq) {
                         held = true;
                     }
-                    if side == 0 && led.streams[t].open_inv.is_some() && led.streams[t].open_ret.is_none() {
+                    if side == 0 && led.streams[t].open_inv.is_some() && led.streams[t].open_ret.as_ref().is_none_or(|r| r.0 > pseq) {
                         held = true;
                     }
                 }
@@ -680,7 +691,7 @@ pub fn judge_leaks(r: &DuoRun, wm: &WireModel, ei: &EndInfo, o: &mut Outcome) {
         }
         // bind requests still unanswered hold their id at the requester
         for (k, b) in led.bind.reqs.iter().enumerate() {
-            if b.4 == at && led.bind.results[k].is_none() {
+            if b.4 == at && led.bind.results[k].as_ref().is_none_or(|r| r.0 > pseq) {
                 held = true;
             }
         }
